@@ -19,16 +19,36 @@ stubs.stub_buildable_repr()
 EXPLANATION = (
     'bounded symbolic execution of the real selectors.select / NodeSelection.__iter__ / set / get / replace / '
     'TagSelection.__iter__, _memoized_walk_leaves_first and mutate_buildable.move_buildable_internals (CrossHair + z3) '
-    'on a four-node DAG family over the callables {function g, classes A <- B <- C}: per-node callable, Config/Partial '
+    'on a four-node DAG family over the callables {function g, classes A <- B <- C, a classmethod looked up afresh at every use}: per-node callable, Config/Partial '
     'kind and child targets are solver-enumerated, the selected callable, match_subclasses, buildable_type filter, '
     'wrapper kind and API are cube parameters; assigned values are unbounded symbolic ints; the oracle is an '
     'independent walker plus a second, substituted construction of the same family member')
 ASSUMPTIONS = ['stubs: building._format_arg, Buildable.__repr__ constant',
-               'replacement values do not themselves match the selection']
-OUT_OF_BOUNDS = ['more than 4 Buildable nodes', 'replacement values that match the selection (structure-altering '
+               'a replacement value matches the selection only in the replace_equal forms (an equal copy of the first '
+               'matching node); there the clause "nothing matching is reachable afterwards" is replaced by "the matched '
+               'node objects are gone"']
+OUT_OF_BOUNDS = ['more than 4 Buildable nodes', 'other replacement values that match the selection (structure-altering '
                  'selections are explicitly unsupported by the NodeSelection docstring)']
 
-CALLS = [fam.g0, fam.A, fam.B, fam.C]
+class K:
+  def __init__(self, x=None, y=None, z=None):
+    self.x, self.y, self.z = x, y, z
+
+  @classmethod
+  def make(cls, x=None, y=None, z=None):
+    return cls(x, y, z)
+
+
+class _Calls:
+  """Index -> callable; the classmethod (4) is looked up afresh on every access, as user code does: each access yields
+  a new bound-method object that is == but not `is` any other."""
+
+  def __getitem__(self, i):
+    return [fam.g0, fam.A, fam.B, fam.C][i] if i < 4 else K.make
+
+
+CALLS = _Calls()
+NCALL = 5
 BTYPES = [fdl.Buildable, fdl.Config, fdl.Partial]
 
 
@@ -69,7 +89,7 @@ def _match(node, f, ms, bt):
   if not isinstance(node, BTYPES[bt]):
     return False
   c = fdl.get_callable(node)
-  if c is CALLS[f]:
+  if c == CALLS[f]:
     return True
   return bool(ms and isinstance(CALLS[f], type) and isinstance(c, type) and issubclass(c, CALLS[f]))
 
@@ -78,17 +98,18 @@ def _ids(root):
   return {id(b) for b in buildables(root)}
 
 
-API = ['iterate', 'set', 'get', 'replace_int', 'replace_int_nodeepcopy', 'replace_cfg', 'replace_cfg_nodeepcopy']
+API = ['iterate', 'set', 'get', 'replace_int', 'replace_int_nodeepcopy', 'replace_cfg', 'replace_cfg_nodeepcopy',
+       'replace_equal_nodeepcopy', 'replace_equal']
 
 
 def c15_nodes(api: int, f: int, ms: bool, bt: int, w: int, c0: int, c1: int, c2: int, c3: int, k0: bool, k1: bool,
               k2: bool, k3: bool, t1x: int, t2x: int, t2y: int, t3x: int, t3y: int, lv: int, v: int) -> bool:
   """
-  require: 0 <= api <= 6 and 0 <= f <= 3 and 0 <= bt <= 2 and 0 <= w <= 5
-  require: 0 <= c0 <= 3 and 0 <= c1 <= 3 and 0 <= c2 <= 3 and 0 <= c3 <= 3
+  require: 0 <= api <= 8 and 0 <= f <= 4 and 0 <= bt <= 2 and 0 <= w <= 5
+  require: 0 <= c0 <= 4 and 0 <= c1 <= 4 and 0 <= c2 <= 4 and 0 <= c3 <= 4
   require: -1 <= t1x <= 0 and -1 <= t2x <= 1 and -1 <= t2y <= 1 and -1 <= t3x <= 2 and -1 <= t3y <= 2
   """
-  calls = [_conc(c0, 0, 3), _conc(c1, 0, 3), _conc(c2, 0, 3), _conc(c3, 0, 3)]
+  calls = [_conc(c0, 0, 4), _conc(c1, 0, 4), _conc(c2, 0, 4), _conc(c3, 0, 4)]
   kinds = [bool(k0), bool(k1), bool(k2), bool(k3)]
   targets = [(-1, -1), (_conc(t1x, -1, 0), -1), (_conc(t2x, -1, 1), _conc(t2y, -1, 1)),
              (_conc(t3x, -1, 2), _conc(t3y, -1, 2))]
@@ -122,9 +143,14 @@ def c15_nodes(api: int, f: int, ms: bool, bt: int, w: int, c0: int, c1: int, c2:
   # ---- replace
   if api in (3, 4):
     value = v
-  else:
+  elif api in (5, 6):
     value = fdl.Config(fam.g5, x=v, y=[v])
-  deep = api in (3, 5)
+  else:
+    # a replacement that is == to the first matching node but a different object (it matches the selection itself)
+    if not M:
+      return True
+    value = copy.deepcopy(nodes[M[0]])
+  deep = api in (3, 5, 8)
   if 3 in M:
     try:
       sel.replace(value, deepcopy=deep)
@@ -154,6 +180,13 @@ def c15_nodes(api: int, f: int, ms: bool, bt: int, w: int, c0: int, c1: int, c2:
   for i in keep:
     if id(nodes[i]) not in after:
       return False
+  if api >= 7:
+    # the matching nodes themselves are gone (their replacement is an equal but distinct object) ...
+    for i in M:
+      if id(nodes[i]) in after:
+        return False
+    # ... and without deepcopy the very object passed in is what is referenced now
+    return deep or id(value) in after
   # nothing that matches is reachable any more
   for b in buildables(root):
     if _match(b, f, ms, bt):
@@ -227,8 +260,8 @@ def c15_tag_iter(mask: int, setmask: int, q: int, shared: bool, v: int) -> bool:
 
 def obligations(tier, seed):
   cubes = []
-  for api in range(7):
-    for f in range(4):
+  for api in range(9):
+    for f in range(NCALL):
       for ms in (False, True):
         for bt in range(3):
           if tier == 'quick' and (api + f + ms + bt) % 2:
@@ -238,10 +271,10 @@ def obligations(tier, seed):
               continue
             # per cube: callables of nodes 0..2 and the shape are symbolic; root callable and kinds fixed by cube index
             j = api + f + bt + w
-            fix = dict(api=api, f=f, ms=ms, bt=bt, w=w, c3=(f + 1 + j) % 4 if j % 3 else f, k0=bool(j % 2), k3=bool(j % 5 == 0))
+            fix = dict(api=api, f=f, ms=ms, bt=bt, w=w, c3=(f + 1 + j) % NCALL if j % 3 else f, k0=bool(j % 2), k3=bool(j % 5 == 0))
             if tier == 'quick':
-              fix.update(k1=bool((j // 2) % 2), k2=bool(j % 3 == 0), t1x=0, c0=(f + j) % 4, c1=(f + j // 3) % 4, t3y=(j % 4) - 1)
-            cubes.append(Cube(f'{API[api]}_f{f}_m{int(ms)}_b{bt}_w{w}', [], fix, est=16 * 2 * 9 * 9))
+              fix.update(k1=bool((j // 2) % 2), k2=bool(j % 3 == 0), t1x=0, c0=(f + j) % NCALL, c1=(f + j // 3) % NCALL, t3y=(j % 4) - 1)
+            cubes.append(Cube(f'{API[api]}_f{f}_m{int(ms)}_b{bt}_w{w}', [], fix, est=25 * 2 * 9 * 9))
   tcubes = [Cube(f'm{m}', [f'mask % 8 == {m}'], {}, est=16 * 128 * 4) for m in range(8)]
   if tier == 'quick':
     tcubes = [Cube(f'm{m}_s{s}', [f'mask % 16 == {m}', f'setmask % 4 == {s}'], dict(shared=bool((m + s) % 2)), est=8 * 32 * 2)
@@ -251,7 +284,9 @@ def obligations(tier, seed):
                t1x=0, t2x=1, t2y=0, t3x=2, t3y=1, lv=3, v=50)
   return [
       Obligation('c15_nodes', c15_nodes, cubes, timeout=t, path_timeout=40, smoke=smoke,
-                 extra_smokes=[dict(smoke, api=a, f=a % 4, bt=a % 3, w=a % 6, ms=bool(a % 2)) for a in range(7)] +
+                 extra_smokes=[dict(smoke, api=a, f=a % 5, bt=a % 3, w=a % 6, ms=bool(a % 2)) for a in range(9)] +
+                 [dict(smoke, api=a, f=4, c0=4, c1=4, c2=4, c3=0, bt=0) for a in (0, 1, 3, 7)] +
+                 [dict(smoke, api=7, f=2, c0=2, c1=2, c2=0, c3=0, t3x=1, t3y=-1, t2x=-1, t2y=-1, t1x=-1, bt=0)] +
                  [dict(smoke, api=5, f=1, c3=0, c2=2, c1=1, c0=3, t3x=2, t3y=0, t2x=1, t2y=0)]),
       Obligation('c15_tag_iter', c15_tag_iter, tcubes, timeout=t, path_timeout=40,
                  smoke=dict(mask=0b1111111, setmask=0b0010111, q=1, shared=True, v=3),
